@@ -214,6 +214,9 @@ def param_space_packages(rng, n):
         m.r2 = h.R(r=val2)(p=m.a, n=m.b)
         m.x2 = E({"s": "str", "n": 4.0, "f": 0.25, "p": val2, "l": h.Literal("lit")})(i=m.bus[0:2], o=m.bus[2], p=m.b)
         m.v2 = h.Vdc(dc=val2, ac=rng.choice([None, 1.0]))(p=m.a, n=m.b)
+        # a parameter given as None where the primitive's default is something else: left out on export, still None after import
+        m.v3 = h.Vdc(dc=None, ac=rng.choice([None, 1]))(p=m.a, n=m.b)
+        m.i3 = h.Idc(dc=None)(p=m.a, n=m.b)
         # explicit Literals whose text looks like a number stay Literals, on every kind of primitive
         m.r3 = h.R(r=h.Literal(rng.choice(["100", "1e-6", " 2.50 ", "1_000", "+3"])))(p=m.a, n=m.b)
         m.vp2 = h.Vpulse(v1=h.Literal("0"), v2="vhi", delay=h.Literal("1e-9"), rise=h.Literal("2"), period="per", width=val)(p=m.c, n=m.b)
